@@ -15,13 +15,14 @@ import (
 
 // specEnv evaluates one contract expression to an SMT term.
 type specEnv struct {
-	f       *frame
-	pkg     *types.Package // scope for type and constant names
-	st      *State
-	pre     *State
-	names   map[string]Val
-	noLocal bool // names resolve in the environment only (prev())
-	closed  bool // callee clause: the caller's parameters are not visible
+	f          *frame
+	pkg        *types.Package // scope for type and constant names
+	st         *State
+	pre        *State
+	names      map[string]Val
+	noLocal    bool            // names resolve in the environment only (prev())
+	localsFrom *ssa.BasicBlock // with noLocal: locals defined in this block or its dominators still resolve
+	closed     bool            // callee clause: the caller's parameters are not visible
 }
 
 // splitTop splits s at the first top-level occurrence of sep (outside
@@ -144,7 +145,7 @@ func outerParens(s string) bool {
 }
 
 func (se *specEnv) child(names map[string]Val) *specEnv {
-	return &specEnv{f: se.f, pkg: se.pkg, st: se.st, pre: se.pre, names: names, noLocal: se.noLocal, closed: se.closed}
+	return &specEnv{f: se.f, pkg: se.pkg, st: se.st, pre: se.pre, names: names, noLocal: se.noLocal, closed: se.closed, localsFrom: se.localsFrom}
 }
 
 func (se *specEnv) evalTop(src string) Val {
@@ -480,6 +481,15 @@ func (se *specEnv) eval(x ast.Expr) (out Val) {
 		}
 		// a local that lives in a cell denotes the cell's current content (value
 		// DebugRefs of such a variable are snapshots taken at earlier reads)
+		if se.noLocal && se.localsFrom != nil {
+			if v, ok := se.f.lookupNameFrom("&"+n.Name, se.localsFrom); ok {
+				a := se.f.asAddr(v)
+				return Val{term: e.load(se.st, a), typ: v.typ.Underlying().(*types.Pointer).Elem()}
+			}
+			if v, ok := se.f.lookupNameFrom(n.Name, se.localsFrom); ok {
+				return v
+			}
+		}
 		if v, ok := se.f.lookupName("&" + n.Name); ok && !se.noLocal {
 			a := se.f.asAddr(v)
 			return Val{term: e.load(se.st, a), typ: v.typ.Underlying().(*types.Pointer).Elem()}
@@ -777,6 +787,10 @@ func (se *specEnv) evalCall(n *ast.CallExpr) Val {
 			o := se.child(names)
 			o.st = hi.st
 			o.noLocal = true
+			// locals defined before the loop keep their meaning inside prev()
+			if hi.blk != nil {
+				o.localsFrom = hi.blk.Idom()
+			}
 			return o.eval(n.Args[0])
 		case "oldelem": // element j of the slice header s (evaluated now), read from the entry-state heap
 			sv := arg(0)
